@@ -1603,10 +1603,11 @@ Qed.
    For the thread that detaches the notify list the enabled step is the one that moves it forward (a non-NULL head, the
    store, the exchange, the submission of the next continuation): its loops are bounded by the list it detached.  The clearing
    loop of dispatch_group_leave and the rmw loops retry only when another thread changed dg_state in between (lock-free).
-   Not in the model: the spin on a NULL dg_notify_head and the spin on do_next of a pusher that has exchanged the tail but not
-   yet linked; the first cannot wait in these runs because the first pusher stores the head before it sets HAS_NOTIFS or
-   fires itself (program order in _dispatch_group_notify), the second waits for a thread that is inside
-   dispatch_group_notify with exactly one store left. *)
+   This is deadlock freedom, not termination.  The spin on a NULL dg_notify_head IS in the model, as a self-loop enabled in
+   every state (PSnapHead accepts a NULL load and stays: the head value is not part of the state), so fair infinite runs that never
+   detach exist in the model; in the library the first pusher stores the head before it sets HAS_NOTIFS or fires itself (program
+   order in _dispatch_group_notify), which is argued, not proved.  The spin on do_next of a pusher that has exchanged the tail but
+   not yet linked is not a step of the model: it waits for a thread inside dispatch_group_notify with exactly one store left. *)
 Definition enabled (s : gst) (t : Z) : Prop := exists e s', gstep s t e = Some s'.
 Definition mk (k ord off sz a b ok : Z) : event := mkEv k ord 0 off sz a b ok.
 Ltac go Hpc := unfold gstep; rewrite Hpc; eexists; cbn; rewrite ?Z.eqb_refl; cbn; reflexivity.
